@@ -5,6 +5,7 @@ package sim
 import (
 	"bytes"
 	"fmt"
+	"os"
 	"runtime"
 	"sort"
 	"testing"
@@ -70,7 +71,15 @@ func (cl *Cluster) settle(st *Stack, base int) bool {
 	return false
 }
 
+// firstRunLog holds the debug log of the case being evaluated when VERIF_C09_LOG is set (hunting a load-dependent failure).
+var firstRunLog *bytes.Buffer
+
 func c09Prop(c c09Case) common.Result {
+	if os.Getenv("VERIF_C09_LOG") != "" && !diagnosing && c.Crypto == "bls12" {
+		firstRunLog = &bytes.Buffer{}
+		kit.Capture = firstRunLog
+		defer func() { kit.Capture = nil; firstRunLog = nil }()
+	}
 	// replica 1 (the subject) leads view 2 and therefore collects the votes for the block of view 1, proposed by replica 2
 	cfg := Config{N: c.N, Rules: "chainedhotstuff", Crypto: c.Crypto, Batch: 1, Leaders: []int{2, 1, 3, 3, 3, 3, 3, 3}, AsyncVotes: c.Async}
 	base := 0
@@ -378,13 +387,22 @@ func diagnoseC09(c c09Case) string {
 	}
 	diagnosing = true
 	defer func() { diagnosing = false }()
+	first := ""
+	if firstRunLog != nil {
+		first = firstRunLog.String()
+		if len(first) > 9000 {
+			first = first[len(first)-9000:]
+		}
+		first = "\n--- debug log of the FAILING run (tail):\n" + first
+	}
 	var buf bytes.Buffer
+	saved := kit.Capture
 	kit.Capture = &buf
 	r := c09Prop(c)
-	kit.Capture = nil
-	log := buf.String()
-	if len(log) > 6000 {
-		log = log[len(log)-6000:]
+	kit.Capture = saved
+	log := buf.String() + first
+	if len(log) > 16000 {
+		log = log[len(log)-16000:]
 	}
 	return fmt.Sprintf("\n--- diagnosis: the same case run again in this process: fails again=%v (%s); goroutines=%d\n--- debug log of that second run (tail):\n%s", r.Err != "", r.Fingerprint, runtime.NumGoroutine(), log)
 }
